@@ -75,6 +75,9 @@ def strip_verbose(pat):
     return "".join(out)
 
 
+KNOWN_ARITY = {}
+
+
 class ObjConst(object):
     """an instance of a plain record class of the package built in a constant table: its class and its attribute values"""
     def __init__(self, qname, attrs):
@@ -324,6 +327,9 @@ class ClassInfo(object):
             for a, ia in list(out.items()):
                 if ia.cls is base and isinstance(ia.value, ast.Name) and ia.value.id in bound and not isinstance(bound[ia.value.id], ast.Name):
                     out[a] = InitAttr(a, bound[ia.value.id], node.lineno, d)
+        for new_, old_ in getattr(model, "attr_renames", {}).items():
+            if new_ in out and old_ not in out:
+                out[old_] = out[new_]        # (the terms speak of the renamed back-pointer under its pinned name)
         return out
 
     def attr_class(self, model, attr):
@@ -496,6 +502,74 @@ class Model(object):
             self._expand_property_factories(c)
         for c in self.classes.values():
             self._shim_vanished_methods(c)
+        self.attr_renames = self._compute_attr_renames()
+        self.func_renames = self._compute_func_renames()
+
+    def _compute_func_renames(self):
+        """module-level private functions of the pinned tree renamed: per module, the one known private function that is gone and
+        the one new private function of the same arity -> {new name: old name}; the old name is made to resolve again"""
+        from .known_funcs import KNOWN_FUNCS
+        known_base = set(q.rsplit(".", 1)[1] for q in KNOWN_FUNCS)
+        out = {}
+        for m in self.modules.values():
+            known = [q.split(".", 1)[1] for q in KNOWN_FUNCS if q.count(".") == 1 and q.split(".", 1)[0] == m.name]
+            known = [n for n in known if n.startswith("_") and not n.startswith("__")]
+            missing = [n for n in known if n not in m.functions and n not in m.imports]
+            extra = [n for n in m.functions if n.startswith("_") and not n.startswith("__") and n not in known_base]
+            if len(missing) == 1 and len(extra) == 1 \
+                    and len(m.functions[extra[0]].args.args) == KNOWN_ARITY.get("%s.%s" % (m.name, missing[0]), len(m.functions[extra[0]].args.args)):
+                m.functions[missing[0]] = m.functions[extra[0]]
+                out[extra[0]] = missing[0]
+        return out
+
+    def _compute_attr_renames(self):
+        """a back-pointer attribute of the pinned tree renamed consistently (``_metadata`` -> ``_owner``): {new name: old name},
+        found per class as "the one pinned back-pointer that is gone / the one new attribute holding a constructor parameter";
+        used only when every class agrees and the new name is nobody's pinned attribute"""
+        from .known_backptrs import BACKPTRS
+        pinned_names = set(n for v in BACKPTRS.values() for n in v)
+        votes = {}
+        for q, pinned in BACKPTRS.items():
+            c = self.classes.get(q)
+            if c is None:
+                continue
+            try:
+                own = c.own_init_attrs(self)
+                cur = {}
+                for a, ia in own.items():
+                    k = ia.kind(self)
+                    if a.startswith("_") or k == "param":
+                        cur[a] = k if isinstance(k, str) else "instance"
+            except Exception:
+                continue
+            for kind in set(pinned.values()):
+                missing = [a for a, k in pinned.items() if k == kind and a not in own]
+                extra = [a for a, k in cur.items() if k == kind and a not in pinned and a not in pinned_names]
+                if len(missing) == 1 and len(extra) == 1:
+                    votes.setdefault(extra[0], set()).add(missing[0])
+        # private methods / properties of the pinned tree renamed (``_fix_path`` -> ``_strip_build_root``): per class, the one
+        # known private method that is gone and the one new private method, of the same arity and kind
+        from .known_funcs import KNOWN_FUNCS
+        known_names = set(q.rsplit(".", 1)[1] for q in KNOWN_FUNCS)
+        for c in self.classes.values():
+            known = [q.rsplit(".", 1)[1] for q in KNOWN_FUNCS if q.rsplit(".", 1)[0] == c.qname]
+            # (validators are discovered by their _validate prefix at run time: for them a new name is a change of behaviour,
+            # never a mere renaming)
+            known = [n for n in known if n.startswith("_") and not n.startswith("__") and not n.startswith("_validate")
+                     and n != "_check_checksum_paths"]
+            missing = [n for n in known if n not in c.methods and c.lookup(n) is None]
+            extra = [n for n in c.methods if n.startswith("_") and not n.startswith("__") and not n.startswith("_validate")
+                     and n not in known and n not in known_names]
+            if len(missing) == 1 and len(extra) == 1:
+                old_, new_ = missing[0], extra[0]
+                if True:
+                    votes.setdefault(new_, set()).add(old_)
+                    c.methods[old_] = c.methods[new_]
+                    if new_ in c.properties:
+                        c.properties.add(old_)
+                    if new_ in c.staticmethods:
+                        c.staticmethods.add(old_)
+        return dict((new, list(olds)[0]) for new, olds in votes.items() if len(olds) == 1)
 
     # one-argument methods the rules are anchored on, which a refactoring may turn into a module-level function that is handed
     # the object's back-pointer explicitly:  self._fix_path(p)  ->  _fix_legacy_path(self._metadata, p)
